@@ -66,11 +66,11 @@ impl Dialect for MySqlDialect {
         &self,
         parser: &mut crate::parser::Parser,
         expr: &crate::ast::Expr,
-        _precedence: u8,
+        precedence: u8,
     ) -> Option<Result<crate::ast::Expr, ParserError>> {
         // Parse DIV as an operator
         if parser.parse_keyword(Keyword::DIV) {
-            Some(parser.parse_expr().map(|right| Expr::BinaryOp {
+            Some(parser.parse_subexpr(precedence).map(|right| Expr::BinaryOp {
                 left: Box::new(expr.clone()),
                 op: BinaryOperator::MyIntegerDivide,
                 right: Box::new(right),
